@@ -5,8 +5,8 @@
 // the driver holds), connect() answers the scripted errno, getsockopt(SO_ERROR) / getsockname /
 // getpeername answer what the EVW op says, close()/shutdown() are counted per logical socket, the
 // clock is virtual (gettimeofday), a foreign thread's call is cut in two by stalling it at its n-th
-// pthread_mutex_lock.  Every case runs in a forked child (no clean-up needed, a crash is reported
-// as a `crashed` line and the next case still runs).
+// pthread_mutex_lock.  Cases run in worker processes, each case on a fresh thread with nothing ever destroyed (a crash
+// kills the worker, is reported as a `crashed` line, and a new worker continues with the next case).
 //
 // case <id>
 //   CONNECT | DISCONNECT | STOP | RETRY | DESTROY            client API on the loop thread
@@ -27,6 +27,7 @@
 #include <sys/socket.h>
 #include <sys/time.h>
 #include <sys/wait.h>
+#include <sys/mman.h>
 #include <netinet/in.h>
 #include <arpa/inet.h>
 #include <unistd.h>
@@ -49,6 +50,8 @@
 #include "muduo/net/Channel.h"
 #include "muduo/net/Socket.h"
 #include "muduo/net/TimerQueue.h"
+#include "muduo/net/Poller.h"
+#include "muduo/net/poller/EPollPoller.h"
 #include "muduo/net/Timer.h"
 #include "muduo/net/InetAddress.h"
 #include "muduo/base/Logging.h"
@@ -248,17 +251,18 @@ static int errnoOf(const string& s)
 
 static int runCase(const std::vector<string>& lines)
 {
-  Logger::setOutput(nullOutput);
   sem_init(&g_reached, 0, 0);
   g_loop_thread = pthread_self();
-  EventLoop loop;
+  // nothing of a case is ever destroyed (a case ends wherever it ends: mid-connect, with parked foreign threads ...):
+  // the objects are leaked, only the descriptors are closed at the end
+  EventLoop& loop = *new EventLoop;
   InetAddress server("127.0.0.1", 2000);
   g_active = true;
   TcpClient* client = new TcpClient(&loop, server, "cl");
   client->setConnectionCallback(onConnection);
   std::weak_ptr<Connector> wk = client->connector_;
-  TcpConnectionPtr user;
-  std::map<string, Foreign> foreign;     // "C", "S", "D", "Y"
+  TcpConnectionPtr& user = *new TcpConnectionPtr;
+  std::map<string, Foreign>& foreign = *new std::map<string, Foreign>;     // "C", "S", "D", "Y"
   bool destroying = false;
   int64_t lastSeq = 0;
   Channel* chanPtr = NULL;
@@ -532,13 +536,45 @@ static int runCase(const std::vector<string>& lines)
     fflush(stdout);
   }
   fflush(stdout);
-  _exit(0);     // no clean-up: the case's process ends here
+  // ---- end of the case: close its descriptors, leak the rest
+  for (size_t i = 0; i < g_socks.size(); ++i)
+  {
+    if (g_socks[i].open) __real_close(g_socks[i].fd);
+    __real_close(g_socks[i].peer);
+  }
+  g_active = false;
+  if (EPollPoller* ep = dynamic_cast<EPollPoller*>(loop.poller_.get())) __real_close(ep->epollfd_);
+  __real_close(loop.wakeupFd_);
+  __real_close(loop.timerQueue_->timerfd_);
+  return 0;
 }
+
+static void resetGlobals()
+{
+  g_socks.clear();
+  g_fd2sock.clear();
+  g_active = false;
+  g_script.clear();
+  g_soerr = 0;
+  g_self = false;
+  g_now_us = kEpochUs;
+  g_events.clear();
+  g_conns.clear();
+  g_race_mutex = NULL;
+  g_race_client = NULL;
+}
+
+// Cases run one after the other in a worker process, each on a fresh thread (an EventLoop is bound to its thread and is
+// never destroyed here).  A crash (assert, sanitizer report, alarm) kills the worker: the parent reports it for the case
+// that was running and starts a new worker with the next case.  A worker is recycled after kPerWorker cases.
+struct Shared { volatile int cur; volatile int done; };
+static const int kPerWorker = 300;
 
 int main()
 {
   string line;
   std::vector<string> lines;
+  std::vector<std::pair<string, std::vector<string> > > cases;
   string cid;
   bool in = false;
   signal(SIGPIPE, SIG_IGN);
@@ -549,61 +585,91 @@ int main()
     if (w[0] == "case") { cid = w[1]; lines.clear(); in = true; continue; }
     if (w[0] != "end") { if (in) lines.push_back(line); continue; }
     in = false;
-    printf("case %s\n", cid.c_str());
-    fflush(stdout);
+    cases.push_back(std::make_pair(cid, lines));
+  }
+  Shared* sh = static_cast<Shared*>(mmap(NULL, sizeof(Shared), PROT_READ | PROT_WRITE, MAP_SHARED | MAP_ANONYMOUS, -1, 0));
+  if (sh == MAP_FAILED) { perror("mmap"); return 3; }
+  size_t next = 0;
+  while (next < cases.size())
+  {
     int ep[2];
     if (pipe(ep) != 0) { perror("pipe"); return 3; }
+    sh->cur = static_cast<int>(next);
+    sh->done = 0;
+    fflush(stdout);
     pid_t pid = fork();
     if (pid == 0)
     {
       ::close(ep[0]);
       dup2(ep[1], 2);
       ::close(ep[1]);
-      alarm(60);
-      runCase(lines);
+      Logger::setOutput(nullOutput);
+      size_t last = std::min(cases.size(), next + static_cast<size_t>(kPerWorker));
+      for (size_t i = next; i < last; ++i)
+      {
+        sh->cur = static_cast<int>(i);
+        alarm(60);
+        resetGlobals();
+        printf("case %s\n", cases[i].first.c_str());
+        fflush(stdout);
+        const std::vector<string>* ls = &cases[i].second;
+        std::thread t([ls]() { runCase(*ls); });
+        t.join();
+        printf("end\n");
+        fflush(stdout);
+      }
+      sh->cur = static_cast<int>(last);
+      sh->done = 1;
+      fflush(stdout);
       _exit(0);
     }
     ::close(ep[1]);
     string err;
     char buf[4096];
     ssize_t n;
-    while ((n = ::read(ep[0], buf, sizeof buf)) > 0) if (err.size() < (1u << 20)) err.append(buf, static_cast<size_t>(n));
+    while ((n = ::read(ep[0], buf, sizeof buf)) > 0)
+    {
+      err.append(buf, static_cast<size_t>(n));
+      if (err.size() > (1u << 20)) err.erase(0, err.size() - (1u << 19));
+    }
     ::close(ep[0]);
     int status = 0;
     waitpid(pid, &status, 0);
-    if (!(WIFEXITED(status) && WEXITSTATUS(status) == 0))
+    if (sh->done && WIFEXITED(status) && WEXITSTATUS(status) == 0) { next = static_cast<size_t>(sh->cur); continue; }
+    // the worker died inside case sh->cur
     {
-      // canonical reason: the failed assertion or the sanitizer's error kind (no addresses)
+      // canonical reason: the failed assertion or the sanitizer's error kind (no addresses); the LAST report counts
       string why = "unknown";
-      size_t a = err.find("Assertion `");
-      size_t s = err.find("ERROR: AddressSanitizer: ");
-      size_t u = err.find("runtime error: ");
-      size_t mc = err.find(": Unexpected error: ");
+      size_t a = err.rfind("Assertion `");
+      size_t s = err.rfind("ERROR: AddressSanitizer: ");
+      size_t u = err.rfind("runtime error: ");
+      size_t mc = err.rfind(": Unexpected error: ");
       if (a != string::npos) { size_t e = err.find('\'', a + 11); why = "assert:" + err.substr(a + 11, e - a - 11); }
       else if (s != string::npos) { size_t e = err.find_first_of(" \n", s + 25); why = "asan:" + err.substr(s + 25, e - s - 25); }
       else if (u != string::npos) { size_t e = err.find('\n', u); why = "ubsan:" + err.substr(u + 15, e - u - 15); }
       else if (mc != string::npos) { size_t b = err.rfind(' ', mc - 1); why = "mcheck:" + err.substr(b + 1, mc - b - 1); }
       else if (WIFSIGNALED(status)) why = "signal:" + std::to_string(WTERMSIG(status));
       string fn;
-      // where: first muduo frame named in the report (assert: the function in the message)
-      size_t f = err.find(": Assertion");
+      size_t f = err.rfind(": Assertion");
       if (a != string::npos && f != string::npos)
       {
         size_t b = err.rfind(": ", f - 1);
         if (b != string::npos) fn = err.substr(b + 2, f - b - 2);
       }
-      else
+      else if (s != string::npos)
       {
-        size_t m = err.find(" in muduo::");
+        size_t m = err.find(" in muduo::", s);
         if (m != string::npos) { size_t e = err.find_first_of("( ", m + 4); fn = err.substr(m + 4, e - m - 4); }
       }
       for (size_t i = 0; i < why.size(); ++i) if (why[i] == ' ') why[i] = '_';
       for (size_t i = 0; i < fn.size(); ++i) if (fn[i] == ' ') fn[i] = '_';
       printf("crashed %s at=%s\n", why.c_str(), fn.empty() ? "?" : fn.c_str());
-      fwrite(err.data(), 1, std::min(err.size(), static_cast<size_t>(1500)), stderr);
+      size_t tail = err.size() > 1500 ? err.size() - 1500 : 0;
+      fwrite(err.data() + tail, 1, err.size() - tail, stderr);
+      printf("end\n");
+      fflush(stdout);
+      next = static_cast<size_t>(sh->cur) + 1;
     }
-    printf("end\n");
-    fflush(stdout);
   }
   return 0;
 }
